@@ -3,7 +3,7 @@
 # scratch worktree that the suite passes and the author's check.py passes with the patch) and run every affected check
 for P in "$@"; do
   for n in 1 2; do
-    src=/tmp/wt/outd/$P/$n; name=$P-d$n
+    R=${ROUND:-d}; src=/tmp/wt/out$R/$P/$n; name=$P-$R$n
     [ -f $src/patch.diff ] || { echo "$name: no patch"; continue; }
     w=/tmp/wt/verify_d_$$
     git -C /repo worktree add -q --detach $w HEAD || exit 9
